@@ -43,6 +43,8 @@ class Check:
         self.known = [k for k in load_known()['known']
                       if k['property'] == prop]
         self.rule = ''
+        self.replaying = False
+        self._cleaned = False
 
     # -- TLC bookkeeping
     def add_tlc(self, name, res, expect_ok=True):
@@ -73,9 +75,17 @@ class Check:
             if k['signature'] == signature:
                 self.known_hits.setdefault(signature, [0, k['what']])[0] += 1
                 return
-        os.makedirs(os.path.join(REPLAYS, self.prop), exist_ok=True)
+        rdir = os.path.join(REPLAYS, self.prop, 're') if self.replaying \
+            else os.path.join(REPLAYS, self.prop)
+        os.makedirs(rdir, exist_ok=True)
+        if not self._cleaned:
+            # replay files of earlier runs are stale
+            self._cleaned = True
+            for fn in os.listdir(rdir):
+                if fn.endswith('.json'):
+                    os.unlink(os.path.join(rdir, fn))
         n = len(self.violations)
-        path = os.path.join(REPLAYS, self.prop, 'v%03d.json' % n)
+        path = os.path.join(rdir, 'v%03d.json' % n)
         replay = dict(replay)
         replay['property'] = self.prop
         replay['signature'] = signature
